@@ -294,6 +294,22 @@ def r5_weights_reach_function(ctx):
             if val is not None and "self.weighting[" in norm(val):
                 okg = any(pol and norm(t) == "self.weighting is not None" for t, pol in ts)
                 ctx.check(okg, f.qual + "#weights-guard", "used whenever weights are configured" if okg else f"weights applied under {[(norm(t), p) for t, p in ts]}", where=f, node=st)
+                # "with the declared weights": the weight must arrive as the declared number - a map built
+                # with the element type of some other array (full_like / ones_like / astype(other.dtype) /
+                # dtype=<not float>) rounds a fractional weight to that type (0.5 -> 0 for integer targets)
+                full = expand(lp, val)
+                for c_ in [x for x in ast.walk(full) if isinstance(x, ast.Call)]:
+                    cn = call_name(c_)
+                    last = cn.split(".")[-1]
+                    dt = kw(c_, "dtype") or (c_.args[0] if last == "astype" and c_.args else None)
+                    floaty = dt is not None and (norm(dt) in ("float", "np.float64", "numpy.float64", "'float64'", "'float'", "np.floating", "np.double") or (isinstance(dt, ast.Constant) and str(dt.value).startswith("float")))
+                    inherits = last in ("full_like", "ones_like", "zeros_like", "empty_like") and dt is None
+                    narrowed = dt is not None and not floaty
+                    if inherits or narrowed:
+                        ctx.fail(f.qual + "#weights-as-declared", f"the weight map is built by `{norm(c_)[:70]}` with an element type that is not the weight's own ({'inherited from ' + norm(c_.args[0])[:30] if inherits and c_.args else norm(dt) if dt is not None else 'inherited'}): a fractional weight is truncated for integer data", where=f, node=st)
+                        break
+                else:
+                    ctx.ok(f.qual + "#weights-as-declared", "the weight map takes its element type from the declared weight", where=f, node=st)
     cal = ctx.func(f"{FD}._calculate_fitness")
     ff = [c_ for c_ in calls_in(cal.node) if dotted(c_.func) == "self.fitness_func"]
     ok = len(ff) == 1 and not ff[0].args
